@@ -347,10 +347,16 @@ sexp sexp_read_bignum (sexp ctx, sexp in, sexp_uint_t init,
     }
 #if SEXP_USE_RATIOS
   } else if (c=='/') {
-    res = sexp_bignum_normalize(res);
-    res = sexp_make_ratio(ctx, res, SEXP_ONE);
-    sexp_ratio_denominator(res) = sexp_read_number(ctx, in, 10, 0);
-    res = sexp_ratio_normalize(ctx, res, in);
+    tmp = sexp_read_number(ctx, in, base, 0);
+    if (sexp_exceptionp(tmp)) {
+      res = tmp;
+    } else if (! (sexp_fixnump(tmp) || sexp_bignump(tmp))) {
+      res = sexp_read_error(ctx, "invalid rational syntax", tmp, in);
+    } else {
+      res = sexp_bignum_normalize(res);
+      res = sexp_make_ratio(ctx, res, tmp);
+      res = sexp_ratio_normalize(ctx, res, in);
+    }
 #endif
 #if SEXP_USE_COMPLEX
   } else if (c=='i' || c=='i' || c=='+' || c=='-') {
